@@ -21,7 +21,7 @@ def prop(pid, rules, explanation, extra_assumptions=(), technique="static analys
     REGISTRY[pid] = {"rules": rules, "explanation": explanation, "assumptions": COMMON_ASSUMPTIONS + list(extra_assumptions), "technique": technique}
 
 
-from . import rules_order as RO, rules_tower as RT, rules_plugin as PL, rules_panic as PN, rules_sql as SQ, rules_wire as WT, rules_config as CF, rules_outage as OUT, rules_index as IX, rules_txindex as TH
+from . import rules_order as RO, rules_tower as RT, rules_plugin as PL, rules_panic as PN, rules_sql as SQ, rules_wire as WT, rules_config as CF, rules_outage as OUT, rules_index as IX, rules_txindex as TH, rules_crypto as CY
 
 STATIC = ("This check decides structural clauses that are necessary conditions of the property, for ALL paths / thread pairs / table rows of the "
           "compiled program (MIR of /repo's working tree); it does not decide the behavioural statement as a whole. ")
@@ -108,6 +108,13 @@ prop("C16", [WT.rule_WT1, WT.rule_WT2, WT.rule_WT3, WT.rule_WT4, RT.rule_AU1],
      STATIC + "Decided: per endpoint both sides (de)serialise the same generated message type (so names, renames and adapters agree by construction); the two ApiError structs are twins; status Display/FromStr are inverse "
      "bijections and agree with the discriminants; custom serde adapters are inverse pairs; signed layouts determine their fields; the signed message templates agree. NOT decided: round-trip identity over all values, body-size limit vs largest request.",
      technique="type-argument agreement at (de)serialisation call sites + table extraction")
+prop("C17", [CY.rule_CY, RO.rule_EF3],
+     STATIC + "Decided (agreement of sibling implementations, nothing about computed values): encrypt and decrypt build the same cipher (ChaCha20-Poly1305, key = sha256 of the secret parameter only) "
+     "with the same constant nonce, exactly one AEAD call each; the plaintext is consensus::serialize(message) and the ciphertext returned is the AEAD output unchanged; decrypt feeds the whole blob to the AEAD and "
+     "returns Ok only as the strict consensus::deserialize of the authenticated plaintext, an AEAD failure being an error; sign / recover_pk forward their arguments unchanged to the Lightning message-signing "
+     "functions; verify = (recover_pk(msg, sig) == pk) with every error mapped to false (CY); locator = first 16 bytes of the txid (EF3). NOT decided: that the primitives are inverse / reject tampering for all inputs "
+     "(values computed by ChaCha20-Poly1305, SHA-256, ECDSA), nor anything about the primitives' own code.",
+     technique="sibling-agreement check on interprocedural origin terms (canonicalised operand terms of the two AEAD call sites) + return-term shape")
 prop("C18", [PL.rule_PL7, SQ.rule_SQ1, SQ.rule_SQ3, PL.rule_PL3, SQ.rule_SQ5_client],
      STATIC + "Decided: every mutator changes memory and disk together and only mutators do; status reconstruction agrees between the two loaders; client schema cascades from towers (and appointments) with foreign keys on; "
      "multi-statement writes are transactions; add-before-delete. NOT decided: the reference-counting rule of delete_pending_appointment over operation sequences; memory == disk after histories.",
@@ -124,7 +131,6 @@ prop("C20", [CF.rule_CF, RO.rule_OR3],
      technique="origin of field writes + abstract evaluation of decision tables over finite domains")
 
 NOT_APPLICABLE = [
-    ("C17", "values computed by ChaCha20-Poly1305 / SHA-256 / ECDSA over all inputs: nothing about round-trip or tamper rejection is visible in the shape of cryptography.rs beyond which library functions are called; the one structural clause (locator = first 16 bytes of the txid) is checked as EF3 under C01"),
 ]
 
 
